@@ -122,7 +122,7 @@ func TestVerifC02(t *testing.T) {
 	vc := verifStart(t, "C02", "crashpoints")
 	defer vc.Finish()
 	verifE1SelfCheck(t)
-	total := vc.N(700, 12000)
+	total := vc.N(500, 4000)
 	for i := 0; i < total; i++ {
 		if !vc.Mine(i) {
 			continue
@@ -130,7 +130,7 @@ func TestVerifC02(t *testing.T) {
 		verifC02Case(vc, i, -1, i)
 	}
 	// systematic: replay the same schedule once per crash index (O(L^2)).
-	nSys := vc.N(6, 160)
+	nSys := vc.N(5, 60)
 	base := 1 << 20
 	idx := base
 	for s := 0; s < nSys; s++ {
